@@ -2,12 +2,14 @@
    Statements only; every proof is `exact <lemma from Proofs/AbiEnc*.v>`.
    Spec/AbiSpec.v: the ABI decoder [decode], the admitted values [admits], [cfg_ok], [wf_ty].
    Model/AbiEncModel.v: [encode] = Calldata.encode, [parse_inputs] = parse_tuple_type,
-   [calldataload] = the size-symbol branching of SEVM.calldataload.  Gen/GenAbiEnc.v
-   (size_pad_right, head_size, sizes, flags, type-name patterns) is regenerated from
-   /repo/src/halmos/calldata.py on every run. *)
+   [calldataload] = the size-symbol branching of SEVM.calldataload, [prun] = a path registering
+   several calldata.  Gen/GenAbiEnc.v (size_pad_right, head_size, sizes, flags, type-name
+   patterns) is regenerated from /repo/src/halmos/calldata.py, Gen/GenDynParams.v
+   (process_dyn_params, the decision chain of calldataload, the concretization a path gets from
+   Path.branch / Path.extend_path) from /repo/src/halmos/sevm.py, on every run. *)
 From Coq Require Import String.
 From Coq Require Import ZArith List Bool Lia.
-From HV Require Import Spec.AbiSpec Gen.GenAbiEnc Model.AbiEncModel
+From HV Require Import Spec.AbiSpec Gen.GenAbiEnc Gen.GenDynParams Model.AbiEncModel
   Proofs.AbiEncProofs Proofs.AbiEncInv Proofs.AbiEncInstance Proofs.AbiEncMain Proofs.AbiEncCand.
 Import ListNotations.
 Open Scope Z_scope.
@@ -94,6 +96,58 @@ Theorem C12_candidates :
     = map (fun n => (Some (d_id d, n), PConst (Z.of_nat n))) (d_sizes d).
 Proof. exact candidates_branch. Qed.
 Print Assumptions C12_candidates.
+
+(* EVERY CALLDATA OF THE PATH.  A path registers many calldata (setUp's, the test's, one per
+   invariant transaction, one per target function of svm.createCalldata), in one
+   Concretization that is copied by Path.branch / Path.extend_path, while the symbol counter runs
+   on and branch conditions fix size symbols.  For every sequence of such events, from every
+   state: at the end every size symbol of every calldata registered along the way still yields
+   one successor per candidate, in order (or the constant the path has fixed it to) -- no later
+   registration, copy or fix drops the candidates of an earlier calldata -- and the candidates
+   are the ones configured for that parameter in the calldata event that created it.
+   (process_dyn_params and the two copies are regenerated from sevm.py: Gen/GenDynParams.v.) *)
+Theorem C12_candidates_path :
+  forall evs s s' all d,
+    prun s evs = (s', all) -> In d all ->
+    calldataload (p_subst s') (p_cands s') (LVar (d_id d))
+    = match assoc (p_subst s') (d_id d) with
+      | Some z => [(None, PConst z)]
+      | None => map (fun n => (Some (d_id d, n), PConst (Z.of_nat n))) (d_sizes d)
+      end.
+Proof. exact candidates_path. Qed.
+Print Assumptions C12_candidates_path.
+
+Theorem C12_candidates_path_configured :
+  forall evs s s' all d,
+    prun s evs = (s', all) -> In d all ->
+    exists c t, In (EvCalldata c t) evs /\ d_sizes d = cand c (d_name d) (d_array d).
+Proof. exact path_configured. Qed.
+Print Assumptions C12_candidates_path_configured.
+
+(* ... and no symbol is shared between two calldata of a path either: all the items created along
+   a run carry pairwise distinct symbol indices (the leaves of different transactions' arguments
+   are independent of each other, too) *)
+Theorem C12_path_indep :
+  forall evs s,
+    NoDup (ids (pitems s evs)) /\ forall i, In i (ids (pitems s evs)) -> (p_next s <= i)%nat.
+Proof. exact path_symbols_distinct. Qed.
+Print Assumptions C12_path_indep.
+
+(* non-vacuity: svm.createCalldata on a contract with f(bytes data) and g(uint256[] xs), then the
+   path of the call made with f's calldata: data still branches over {0,65,1024}, xs over {3,5} *)
+Example C12_candidates_path_nonvacuous :
+  let c := {| c_lengths := [(codes "xs", [3%nat; 5%nat])]; c_array := [0%nat; 1%nat; 2%nat];
+              c_bytes := [0%nat; 65%nat; 1024%nat] |} in
+  let f := Tuple [(codes "data", Base s_bytes)] in
+  let g := Tuple [(codes "xs", Dyn (Base (codes "uint256"%string)))] in
+  let '(s', all) := prun {| p_next := 0; p_subst := []; p_cands := [] |}
+                         [EvSkip 2; EvCalldata c f; EvCalldata c g; EvExtend; EvBranch] in
+  map d_id all = [3%nat; 4%nat] /\
+  calldataload (p_subst s') (p_cands s') (LVar 3)
+  = [(Some (3%nat, 0%nat), PConst 0); (Some (3%nat, 65%nat), PConst 65); (Some (3%nat, 1024%nat), PConst 1024)] /\
+  calldataload (p_subst s') (p_cands s') (LVar 4)
+  = [(Some (4%nat, 3%nat), PConst 3); (Some (4%nat, 5%nat), PConst 5)].
+Proof. vm_compute. repeat split; reflexivity. Qed.
 
 (* once fixed by the path condition the symbol reads as that constant; other words are untouched *)
 Theorem C12_candidates_fixed :
